@@ -94,6 +94,8 @@ where
             };
         };
 
+        #[cfg(rs_store_verif)]
+        crate::verif::pt("iter.end", 0, 0, None, self.subscription.is_some() as i64);
         if let Some(subscription) = self.subscription.take() {
             subscription.unsubscribe()
         }
